@@ -130,7 +130,7 @@ impl<'a> Gen<'a> {
         if self.rng.chance(1, 60) {
             // a long line of multi-byte text: larger than std's 1 KiB line buffer
             let t = self.token();
-            return Val::Str(format!("{t} {}", "żółw✓".repeat(150 + self.rng.usize_below(200))));
+            return Val::Str(format!("{t} {}", "żółw✓".repeat(150 + self.rng.usize_below(400))));
         }
         match self.rng.below(12) {
             0 => Val::Int(self.small_int()),
